@@ -275,6 +275,9 @@ pub enum MultiProofVerificationError {
     PathsOutOfOrder,
     /// Extra siblings were provided.
     TooManySiblings,
+    /// The multi-proof is structurally invalid: a claimed depth is inconsistent with its terminal
+    /// or with the other paths, or too few siblings were provided.
+    MalformedProof,
 }
 
 #[derive(Debug, Clone)]
@@ -479,11 +482,21 @@ fn verify_range<H: NodeHasher>(
         // at a terminal node, 'siblings' will contain all unique
         // nodes, hash them up, and return that
         let terminal_path = &paths[0];
+        let terminal_bits = terminal_path.terminal.path();
+
+        // The claimed depth must lie within the terminal's path and below the point where this
+        // range starts, and there must be a sibling for every unique bit.
+        if terminal_path.depth < start_depth || terminal_path.depth > terminal_bits.len() {
+            return Err(MultiProofVerificationError::MalformedProof);
+        }
         let unique_len = terminal_path.depth - start_depth;
+        if unique_len > siblings.len() {
+            return Err(MultiProofVerificationError::MalformedProof);
+        }
 
         let node = hash_path::<H>(
             terminal_path.terminal.node::<H>(),
-            &terminal_path.terminal.path()[start_depth..start_depth + unique_len],
+            &terminal_bits[start_depth..terminal_path.depth],
             siblings[..unique_len].iter().rev().copied(),
         );
 
@@ -502,13 +515,25 @@ fn verify_range<H: NodeHasher>(
     let start_path = &paths[0];
     let end_path = &paths[paths.len() - 1];
 
-    let common_bits = shared_bits(
-        &start_path.terminal.path()[start_depth..],
-        &end_path.terminal.path()[start_depth..],
-    );
+    let start_bits = start_path.terminal.path();
+    let end_bits = end_path.terminal.path();
+    if start_depth > start_bits.len() || start_depth > end_bits.len() {
+        return Err(MultiProofVerificationError::MalformedProof);
+    }
+
+    let common_bits = shared_bits(&start_bits[start_depth..], &end_bits[start_depth..]);
 
     let common_len = start_depth + common_bits;
-    // TODO: if `common_len` == 256 the multi-proof is malformed. error
+
+    // Every path of the range must extend beyond the common prefix, otherwise it cannot be
+    // bisected, and the common prefix needs one sibling per bit.
+    if common_bits > siblings.len()
+        || paths
+            .iter()
+            .any(|item| item.terminal.path().len() <= common_len)
+    {
+        return Err(MultiProofVerificationError::MalformedProof);
+    }
 
     let uncommon_start_len = common_len + 1;
 
@@ -564,7 +589,7 @@ fn verify_range<H: NodeHasher>(
             left: left_node,
             right: right_node,
         }),
-        &start_path.terminal.path()[start_depth..common_len], // == last_path.same...
+        &start_bits[start_depth..common_len], // == last_path.same...
         siblings[..common_bits].iter().rev().copied(),
     );
     Ok((node, total_siblings_used))
